@@ -4,6 +4,7 @@ import (
 	"testing"
 	"time"
 
+	"verif/engine/ev"
 	"verif/engine/gx"
 	"verif/engine/rigs/prodrig"
 )
@@ -11,5 +12,17 @@ import (
 func TestMain(m *testing.M)   { gx.Main(m) }
 func TestWorker(t *testing.T) { gx.WorkerMain(t) }
 func TestCheck(t *testing.T) {
-	gx.RunCheck(t, "C04", prodrig.Scenarios("C04"), 50*time.Second, 14*time.Minute, prodrig.Assumptions)
+	gx.RunCheck(t, "C04", prodrig.Scenarios("C04"), 55*time.Second, 14*time.Minute, prodrig.Assumptions,
+		func(t *testing.T, c *ev.Check, e *gx.Explorer) bool {
+			fam := prodrig.C04Family()
+			bound := 1
+			if ev.Tier() == "thorough" {
+				bound = 2
+			}
+			done, ok := e.ExploreMany(fam, bound, 1)
+			c.Set("format_family_size", len(fam))
+			c.Set("format_family_done", done)
+			c.Set("format_family_rule", "message format generation (v0, v1, record batch v2, produce v7) x codec (none, gzip, snappy, lz4, zstd) x batch composition (1-2 partitions, 3-5 messages, input-first so that several messages and partitions share a request) x acks x flush setting, keys (nil/empty/non-empty) and headers on some messages; default schedule plus every schedule with <=1 (quick) / <=2 (thorough) deviations incl. retried and deduplicated batches; the simulated broker decodes every request and the oracle compares wire and log content and every reported (partition, offset) with what was submitted")
+			return ok
+		})
 }
